@@ -51,11 +51,16 @@ def atom(v):
     return json.dumps(v, sort_keys=True, default=repr)
 
 
+def pub(g):
+    """The declared (public) fields of a parameter object: private helper attributes an implementation may keep are not observed."""
+    return [(k, v) for k, v in g.__dict__.items() if not k.startswith("_")]
+
+
 def dump(g):
     """Observable state of a parameter group and everything nested in it, in __dict__ order."""
     from commonroad.visualization.draw_params import BaseParam
     return {"i": bool(g.__dict__.get(PRIV, False)),
-            "f": [[k, dump(v) if isinstance(v, BaseParam) else atom(v)] for k, v in g.__dict__.items() if k != PRIV]}
+            "f": [[k, dump(v) if isinstance(v, BaseParam) else atom(v)] for k, v in pub(g)]}
 
 
 def schema():
@@ -67,9 +72,7 @@ def schema():
         for n, c in B.param_classes().items():
             inst = c()
             fs = []
-            for k, v in inst.__dict__.items():
-                if k == PRIV:
-                    continue
+            for k, v in pub(inst):
                 if isinstance(v, BaseParam):
                     fs.append((k, "group", type(v).__name__, None))
                 else:
@@ -206,7 +209,7 @@ def spec_tree(v):
 def walk_groups(g, path=()):
     from commonroad.visualization.draw_params import BaseParam
     yield path, g
-    for k, v in g.__dict__.items():
+    for k, v in pub(g):
         if isinstance(v, BaseParam):
             yield from walk_groups(v, path + (k,))
 
@@ -266,7 +269,7 @@ def run_params_case(ctx, case, model=True):
             ctx.tag("params:not-declared")
         if name in ("time_begin", "time_end"):
             ctx.tag("params:window")
-        before = {p: {k: x for k, x in h.__dict__.items()} for p, h in walk_groups(target)}
+        before = {p: {k: x for k, x in pub(h)} for p, h in walk_groups(target)}
         res = call(setattr, target, name, val)
         if res[0] != "ok":
             ctx.fail(f"C19/params.setattr/raises-{res[1]}", f"setattr({'.'.join(path) or 'root'}, {name!r}, …) raises {res[2]}", sub)
@@ -345,7 +348,7 @@ def patch_canon(p):
 
 def walk_fields(g, path=()):
     from commonroad.visualization.draw_params import BaseParam
-    for k, v in g.__dict__.items():
+    for k, v in pub(g):
         if k == PRIV:
             continue
         if isinstance(v, BaseParam):
